@@ -39,14 +39,24 @@ class BasePickerModel(ABC):
         # if depth is too large
         if isinstance(depth, (int, np.integer)):
             depth = (depth, depth, depth)
-        task: da.Array = image.map_overlap(
+        depth = tuple(min(s, d) for s, d in zip(image.shape, depth))
+        depth_px = tuple(int(d) for d in depth)
+        # Overlap explicitly (chunks may be merged to be larger than the depth) so that
+        # the extent of each chunk without the overlap is known.
+        overlapped: da.Array = da.overlap.overlap(
+            image, depth=dict(enumerate(depth_px)), boundary=boundary
+        )
+        core_chunks = tuple(
+            tuple(c - 2 * d for c in chunks)
+            for chunks, d in zip(overlapped.chunks, depth_px)
+        )
+        task: da.Array = overlapped.map_blocks(
             self._pick_in_chunk_wrapped,
             **params,
             **kwargs,
+            core_chunks=core_chunks,
+            depth=depth_px,
             # dask parameters
-            depth=[min(s, d) for s, d in zip(image.shape, depth)],
-            trim=False,
-            boundary=boundary,
             dtype=object,
             meta=np.array([]),
         )
@@ -59,13 +69,24 @@ class BasePickerModel(ABC):
         self,
         image: NDArray[np.float32],
         block_info: dict,
+        core_chunks: tuple[tuple[int, ...], ...],
+        depth: tuple[int, ...],
         **kwargs,
     ) -> NDArray[np.object_]:
         pos, quats, features = self.pick_in_chunk(image, **kwargs)
-        locs: list[tuple[int, int]] = block_info[None]["array-location"]
-        for i, (start, _) in enumerate(locs):
-            pos[:, i] += start
-
+        pos = np.asarray(pos, dtype=np.float32).reshape(-1, 3)
+        location: tuple[int, ...] = block_info[None]["chunk-location"]
+        # Each chunk only reports the molecules inside its own region (without the
+        # overlap), so that molecules in the overlap are not duplicated.
+        keep = np.ones(pos.shape[0], dtype=np.bool_)
+        for i, (loc, d) in enumerate(zip(location, depth)):
+            local = pos[:, i] - d
+            keep &= (-0.5 <= local) & (local < core_chunks[i][loc] - 0.5)
+            # still in the coordinates of the image padded by `depth`
+            pos[:, i] += sum(core_chunks[i][:loc])
+        pos = pos[keep]
+        quats = np.asarray(quats)[keep]
+        features = {k: np.asarray(v)[keep] for k, v in features.items()}
         return np.array([[[MoleculesBox(pos, quats, features)]]], dtype=object)
 
     @abstractmethod
@@ -127,7 +148,9 @@ class BaseTemplateMatcher(BasePickerModel):
         mask = self._tilt_model.create_mask(shape=template.shape)
         out = pool.compute()  # rotated templates
         templates = [o * mask for o in out]
-        depth = tuple(np.ceil(np.array(templates[0].shape) / 2).astype(np.uint16))
+        # One extra pixel so that the edge of the correlation landscape of each chunk
+        # lies outside the region the chunk is responsible for.
+        depth = tuple(np.ceil(np.array(templates[0].shape) / 2).astype(np.uint16) + 1)
         return {"templates": templates}, depth
 
     def _index_to_quaternions(self, argmax_indices):
